@@ -23,6 +23,9 @@ PTR_BITS = 64
 # exceptions that end a path
 # --------------------------------------------------------------------------
 
+CONST_MODELS = []      # (compiled regex on the constant's path, fn(engine) -> value)
+
+
 class PathEnd(Exception):
     pass
 
@@ -1250,6 +1253,10 @@ class Engine:
             return self.eval_const_body(exact[0])
         if len(cands) == 1:
             return self.eval_const_body(cands[0])
+        # constants of external crates that have a model
+        for rx, f in CONST_MODELS:
+            if rx.search(name):
+                return f(self)
         # function item
         return FnItem(t)
 
